@@ -318,9 +318,11 @@ From RQ Require Import Model.Isolation.
 Definition switches_eqb (a b : switches) : bool :=
   Bool.eqb (sw_reinvest a) (sw_reinvest b) && Bool.eqb (sw_cash_return a) (sw_cash_return b) && Bool.eqb (sw_t1 a) (sw_t1 b).
 (* the process state a run finds at init: what the previous run left (prev), then boot with this run's configuration *)
-Definition chk_boot (prev cfg observed : switches) (prev_margin_on : bool) (env_is_current : bool) : bool :=
-  let p := boot cfg 1 {| pr_switches := prev; pr_env := 0; pr_cache := [(0, 0)%Z]; pr_margin_on := prev_margin_on; pr_next_id := 0 |} in
-  switches_eqb (pr_switches p) observed && env_is_current && (pr_env p =? 1)%Z && match pr_cache p with [] => true | _ => false end.
+Definition chk_boot (prev cfg observed : switches) (prev_margin_on : bool) (env_is_current : bool) (has_future prev_future_apis observed_future_apis : bool) : bool :=
+  let p := boot cfg has_future 1 {| pr_switches := prev; pr_env := 0; pr_cache := [(0, 0)%Z]; pr_margin_on := prev_margin_on; pr_next_id := 0;
+                                    pr_future_apis := prev_future_apis |} in
+  switches_eqb (pr_switches p) observed && env_is_current && (pr_env p =? 1)%Z && match pr_cache p with [] => true | _ => false end &&
+  Bool.eqb (pr_future_apis p) observed_future_apis.
 Fixpoint zinsert (x : Z) (l : list Z) : list Z := match l with [] => [x] | y :: t => if (x <=? y)%Z then x :: l else y :: zinsert x t end.
 Definition zsort (l : list Z) : list Z := fold_right zinsert [] l.
 Definition chk_contracts (data : list instr) (und d : Z) (observed : list Z) : bool := zlist_eq (zsort (contracts data und d)) observed.
